@@ -6,6 +6,7 @@ import (
 	"go/token"
 	"go/types"
 	"os"
+	"time"
 
 	"golang.org/x/tools/go/ssa"
 
@@ -341,10 +342,17 @@ func (m *Machine) Concretize(v IntV, lo, hi int) (int, bool) {
 // Explore enumerates the abstract paths of body.  body is re-run from scratch for every path (it must
 // build its own arguments: the heap is mutable); every undetermined branch inside it forks.  It returns
 // the number of paths, or an error when the code leaves the supported fragment or a budget is exhausted.
+// SoftDeadline: once passed, path exploration stops with an "unsupported" error so that the check still files what it
+// has decided (violations found so far keep their exit status) instead of being killed by the wall-clock limit.
+var SoftDeadline time.Time
+
 func (m *Machine) Explore(maxPaths int, body func()) (n int, err error) {
 	m.trace = nil
 	for {
 		n++
+		if !SoftDeadline.IsZero() && time.Now().After(SoftDeadline) {
+			return n, Unsupported{Msg: "time budget of the check exhausted"}
+		}
 		if n > maxPaths {
 			return n, fmt.Errorf("path budget (%d) exhausted", maxPaths)
 		}
@@ -623,6 +631,9 @@ func (m *Machine) execBlock(fr *frame, b *ssa.BasicBlock, prev *ssa.BasicBlock) 
 		m.steps++
 		if m.steps > m.MaxSteps {
 			panic(divergence{})
+		}
+		if m.steps&0xfff == 0 && !SoftDeadline.IsZero() && time.Now().After(SoftDeadline) {
+			panic(Unsupported{Msg: "time budget of the check exhausted"})
 		}
 		switch x := in.(type) {
 		case *ssa.If:
